@@ -25,7 +25,10 @@ def build_ext(root):
 
 def run_demo(root, demo):
     env = {**os.environ, "PYTHONPATH": root}
-    p = subprocess.run([PY, demo], cwd=root, env=env, capture_output=True, text=True, timeout=1800)
+    try:
+        p = subprocess.run([PY, demo], cwd=root, env=env, capture_output=True, text=True, timeout=900)
+    except subprocess.TimeoutExpired as e:
+        return 124, "TIMEOUT after 900 s: " + str((e.stdout or b"")[-300:])
     return p.returncode, (p.stdout + p.stderr)[-600:]
 
 
